@@ -98,7 +98,8 @@ static uint64_t digest_run(const covfie::field<B> & f, Mk mk, int T, bool shared
         rng r(seed * 1000 + t);
         bar.wait();
         uint64_t h = 1469598103934665603ull;
-        for (int k = 0; k < 3000; ++k) { auto x = mk(r); auto res = v.at(x); float z = res[0]; uint32_t b; std::memcpy(&b, &z, 4); h = (h ^ b) * 1099511628211ull; }
+        for (int k = 0; k < 3000; ++k) { auto x = mk(r); auto res = v.at(x);
+            for (std::size_t q = 0; q < sizeof(res) / sizeof(res[0]); ++q) { float z = (float)res[q]; uint32_t b; std::memcpy(&b, &z, 4); h = (h ^ b) * 1099511628211ull; } }
         per_thread[t] = h;
     });
     for (auto & x : th) x.join();
@@ -111,7 +112,8 @@ static void stress(const char * name, const covfie::field<B> & f, Mk mk, int T, 
     // sequential reference: the same per-thread programs executed one after another
     seq.assign(T, 0);
     for (int t = 0; t < T; ++t) { std::vector<uint64_t> one; typename covfie::field<B>::view_t v(f); rng r(seed * 1000 + t); uint64_t h = 1469598103934665603ull;
-        for (int k = 0; k < 3000; ++k) { auto x = mk(r); auto res = v.at(x); float z = res[0]; uint32_t b; std::memcpy(&b, &z, 4); h = (h ^ b) * 1099511628211ull; } seq[t] = h; }
+        for (int k = 0; k < 3000; ++k) { auto x = mk(r); auto res = v.at(x);
+            for (std::size_t q = 0; q < sizeof(res) / sizeof(res[0]); ++q) { float z = (float)res[q]; uint32_t b; std::memcpy(&b, &z, 4); h = (h ^ b) * 1099511628211ull; } } seq[t] = h; }
     for (bool sh : {true, false}) {
         digest_run(f, mk, T, sh, seed, par);
         ++g_cases;
@@ -140,6 +142,24 @@ static void stress_layout(const char * name, std::vector<std::size_t> ext, int T
     auto fl = wrap<cb::linear<LB>>(f);
     auto mkl = [&](rng & r) { covfie::array::array<float, N> c; for (std::size_t k = 0; k < N; ++k) c[k] = (float)r.below(ext[k] - 1) + (float)r.below(4) / 4.f; return c; };
     stress((std::string(name) + "/linear").c_str(), fl, mkl, T, seed);
+}
+
+// interpolation with WIDE outputs in 4 and 5 dimensions: 2^N corner vectors of M scalars are gathered per lookup (hundreds of
+// bytes to kilobytes of temporaries) - per-lookup scratch space must be private to the call whatever the build flags
+template <std::size_t N, typename S, std::size_t M>
+static void stress_wide(const char * name, std::vector<std::size_t> ext, int T, uint64_t seed) {
+    using AW = cb::array<cv::vector_d<S, M>>;
+    using RS = cb::strided<In<N>, AW>;
+    typename RS::configuration_t cfg; std::size_t prod = 1;
+    for (std::size_t k = 0; k < N; ++k) { cfg[k] = ext[k]; prod *= ext[k]; }
+    covfie::field<RS> rs(covfie::make_parameter_pack(std::move(cfg), typename AW::configuration_t{prod}));
+    { typename AW::non_owning_data_t raw(rs.backend().get_backend()); for (std::size_t i = 0; i < prod; ++i) for (std::size_t q = 0; q < M; ++q) raw.at(i)[q] = (S)(((i * 37 + q * 11) % 101) + 0.5); }
+    auto fl = wrap<cb::linear<RS>>(rs);
+    auto mkl = [&](rng & r) { covfie::array::array<float, N> c; for (std::size_t k = 0; k < N; ++k) c[k] = (float)r.below(ext[k] - 1) + (float)r.below(4) / 4.f; return c; };
+    stress((std::string(name) + "/linear").c_str(), fl, mkl, T, seed);
+    auto fn = wrap<cb::nearest_neighbour<RS>>(rs);
+    auto mkn = [&](rng & r) { covfie::array::array<float, N> c; for (std::size_t k = 0; k < N; ++k) c[k] = (float)r.below(ext[k]) + 0.25f; return c; };
+    stress((std::string(name) + "/nearest").c_str(), fn, mkn, T, seed);
 }
 
 // two fields of the same TYPE but different extents used concurrently (a per-type static cache keyed on "the last field seen"
@@ -227,6 +247,13 @@ int main(int argc, char ** argv) {
         stress_two_fields<2, cb::strided<In<2>, A1>>("strided2", {7, 6}, {13, 11}, T, seed);
         stress_two_fields<3, cb::morton<In<3>, A1, false>>("mortonp3", {3, 2, 5}, {9, 4, 2}, T, seed);
         stress_fresh_fill<void>("strided2", 48, 40, T);
+        // sides beyond 2^8: any per-view or per-type memo of "the last tile / block visited" would be shared here
+        stress_layout<2, cb::hilbert<In<2>, A1>>("hilbert2-700x530", {700, 530}, T, seed);
+        stress_layout<2, cb::morton<In<2>, A1, false>>("mortonp2-600x3", {600, 3}, T, seed);
+        stress_wide<4, double, 3>("strided4-double3", {4, 3, 5, 3}, T, seed);
+        stress_wide<4, float, 4>("strided4-float4", {3, 4, 3, 4}, T, seed);
+        stress_wide<5, float, 3>("strided5-float3", {3, 2, 3, 2, 3}, T, seed);
+        stress_wide<3, double, 4>("strided3-double4", {5, 4, 3}, T, seed);
         summary();
     }
     return 0;
